@@ -68,6 +68,9 @@ enum Task {
     /// x op1 (C op2 x) / x op1 (x op2 C) / x op1 (y op2 x): the operand is computed from the variable
     /// itself (partial products and sums that share wires with the other operand)
     Compound(BinOp, BinOp, IntTy, Option<i128>, bool),
+    /// x op1 C1 op2 C2, written without parentheses (two literal steps in a row: every step is
+    /// checked on its own, the steps must not be merged into one); bool: literals without suffix
+    Chain(BinOp, i128, BinOp, i128, IntTy, bool),
     /// bool operators & | ^ == != on bool inputs
     BoolOp(BinOp),
     /// a VarConst / ConstVar task whose literal constant is written without its type suffix (the
@@ -86,6 +89,7 @@ impl Task {
             Task::Cast(a, b) => format!("cast:{}->{}", a.name(), b.name()),
             Task::CastChain(a, bs) => format!("cast-chain:{}->{}", a.name(), bs.iter().map(|b| b.name()).collect::<Vec<_>>().join("->")),
             Task::Compound(o1, o2, t, c, _) => format!("{}({}):{}:compound-{}", o1.sym(), o2.sym(), t.name(), if c.is_some() { "const" } else { "var" }),
+            Task::Chain(o1, _, o2, _, t, bare) => format!("{}{}:{}:literal-chain{}", o1.sym(), o2.sym(), t.name(), if *bare { "-suffix-free" } else { "" }),
             Task::BoolOp(op) => format!("{}:bool:var-var", op.sym()),
             Task::SuffixFree(t) => format!("{}:suffix-free-literal", t.key()),
         }
@@ -189,6 +193,10 @@ impl Task {
                     Prim::Int(*t),
                 )
             }
+            Task::Chain(o1, c1, o2, c2, t, bare) => {
+                let lit = |c: &i128| if *bare { c.to_string() } else { t.lit(*c) };
+                (format!("pub fn main(x: {}) -> {} {{ x {} {} {} {} }}", t.name(), t.name(), o1.sym(), lit(c1), o2.sym(), lit(c2)), vec![Prim::Int(*t)], Prim::Int(*t))
+            }
             Task::SuffixFree(_) => unreachable!(),
             Task::BoolOp(op) => (
                 format!("pub fn main(x: bool, y: bool) -> bool {{ x {} y }}", op.sym()),
@@ -235,6 +243,10 @@ impl Task {
                     other => other,
                 }
             }
+            Task::Chain(o1, c1, o2, c2, t, _) => match ints::binop(*o1, *t, args[0], *c1) {
+                Arith::Val(v) => ints::binop(*o2, *t, v, *c2),
+                other => other,
+            },
             Task::BoolOp(op) => {
                 let (a, b) = (args[0] != 0, args[1] != 0);
                 Arith::Val(match op {
@@ -668,6 +680,44 @@ fn build_tasks(tier: Tier, rng: &mut Rng) -> Vec<(Task, Vec<Vec<i128>>, bool)> {
                     if small {
                         let vals: Vec<Vec<i128>> = (t.min_val()..=t.max_val()).flat_map(|a| (t.min_val()..=t.max_val()).step_by(5).map(move |b| vec![a, b])).collect();
                         tasks.push((Task::Compound(o1, o2, t, None, false), vals, false));
+                    }
+                }
+            }
+        }
+    }
+    // two literal steps in a row (left-nested, no parentheses)
+    {
+        let ops = [BinOp::Add, BinOp::Sub, BinOp::Mul];
+        for t in [ints::U8, ints::I8, ints::U16, ints::I16, ints::I32, ints::USIZE, ints::U64, ints::I64] {
+            let small = t.bits == 8;
+            let consts: Vec<i128> = vec![1, 2, 3, 5, 10, 100, 127];
+            for o1 in ops {
+                for o2 in ops {
+                    if o1 == BinOp::Mul && o2 == BinOp::Mul && !small {
+                        continue;
+                    }
+                    // (`x + C1 * C2` is not a chain of two steps on x: the product binds tighter)
+                    if o2 == BinOp::Mul && o1 != BinOp::Mul {
+                        continue;
+                    }
+                    for c1 in &consts {
+                        for c2 in &consts {
+                            if !small && !rng.chance(1, 8) {
+                                continue;
+                            }
+                            if small && !rng.chance(1, 3) {
+                                continue;
+                            }
+                            let vals: Vec<Vec<i128>> = if small {
+                                (t.min_val()..=t.max_val()).map(|v| vec![v]).collect()
+                            } else {
+                                // the ends of the type (where one step overflows and two steps cancel) and samples
+                                let mut v: Vec<i128> = (0..=(c1 + c2)).flat_map(|d| [t.min_val() + d, t.max_val() - d]).collect();
+                                v.extend(sample_values(rng, Prim::Int(t), 12));
+                                v.into_iter().map(|x| vec![x]).collect()
+                            };
+                            tasks.push((Task::Chain(o1, *c1, o2, *c2, t, rng.bool()), vals, small));
+                        }
                     }
                 }
             }
